@@ -660,7 +660,7 @@ func zzC10Ticks(d time.Duration) (n int) {
 // abs projects the real server onto the spec's state and checks the mutual
 // agreement of the structures.
 func (y *zzC10Sys) abs() (o *zzC10Obs) {
-	o = &zzC10Obs{Ls: []zzC10L{}, Disk: []zzC10L{}, Prob: []string{}}
+	o = &zzC10Obs{Ls: []zzC10L{}, Disk: []zzC10L{}, Prob: []string{}, Note: []string{}}
 	u, s4 := y.u, y.s4
 	now := time.Now()
 	prob := map[string]bool{}
